@@ -151,6 +151,10 @@ class Fails(list):
         return _Guard(self, sub)
 
 
+class Skip(Exception):
+    """raised inside a guard to leave the sub-check silently (cell outside the sub-check's domain)"""
+
+
 class _Guard:
     """context manager: an exception inside becomes a fail 'exception: Type: msg' for sub-check `sub`"""
 
@@ -165,6 +169,8 @@ class _Guard:
             return False
         if issubclass(et, (KeyboardInterrupt, SystemExit, MemoryError)):
             return False
+        if issubclass(et, Skip):
+            return True
         import traceback
 
         loc = "".join(traceback.format_tb(tb)[-2:])
